@@ -2,15 +2,9 @@ import Pamqp.Props.TieA.Defs
 namespace Pamqp.Props
 open Pamqp
 
+/-- every protocol constant has the protocol's value, and frame.py reads exactly the expected ones -/
 theorem tieA_frame_constants :
     (Spec.constants.all (fun c => Generated.constants.contains c)) = true ∧
-    (["FRAME_HEARTBEAT", "FRAME_END", "FRAME_HEADER_SIZE", "FRAME_METHOD", "FRAME_HEADER", "FRAME_BODY"].all
-      (fun n => Generated.frameConstUses.contains ("frame.unmarshal", n))) = true ∧
-    Generated.frameConstUses.contains ("frame.frame_parts", "FRAME_HEADER_SIZE") = true ∧
-    Generated.frameConstUses.contains ("frame._marshal", "FRAME_END_CHAR") = true ∧
-    Generated.frameConstUses.contains ("frame._marshal_method_frame", "FRAME_METHOD") = true ∧
-    Generated.frameConstUses.contains ("frame._marshal_content_header_frame", "FRAME_HEADER") = true ∧
-    Generated.frameConstUses.contains ("frame._marshal_content_body_frame", "FRAME_BODY") = true ∧
-    Generated.frameConstUses.contains ("frame._unmarshal_protocol_header_frame", "AMQP") = true := by decide
+    sameSet Generated.frameConstUses expectedFrameConstUses = true := by decide
 
 end Pamqp.Props
